@@ -2,6 +2,7 @@ package props
 
 import (
 	"fmt"
+	"strings"
 	"io"
 	"os"
 
@@ -33,3 +34,14 @@ func init() {
 }
 
 var parseSettingsZero = parse.Settings{}
+
+func firstDiff(a, b string) string {
+	la, lb := strings.Split(a, "\n"), strings.Split(b, "\n")
+	for i := 0; i < len(la) && i < len(lb); i++ {
+		if la[i] != lb[i] {
+			return fmt.Sprintf("line %d: %q vs %q", i+1, la[i], lb[i])
+		}
+	}
+	return fmt.Sprintf("length %d vs %d lines", len(la), len(lb))
+}
+
